@@ -157,8 +157,11 @@ def run_case(case, ctx):
     kw = {} if bases is None else {"input_bases": bases}
     tags = {"state": kind}
     before = monitors.params_digest(st)
+    cform = trainrec.CONTAINER_FORMS[c["cfg"] % len(trainrec.CONTAINER_FORMS)]
+    ctx.seen("callback_container_forms", cform)
+    tags["callbacks_as"] = cform
     ctx.lib("fit", st.fit, data, epochs=c["epochs"], pos_batch_size=c["pos"], neg_batch_size=c["neg"], k=c["k"], lr=0.1,
-            starting_epoch=c["start"], time=c["time"], callbacks=cbs, tags=tags, **kw)
+            starting_epoch=c["start"], time=c["time"], callbacks=trainrec.as_container(cbs, cform), tags=tags, **kw)
     ctx.count("runs")
     if c["time"]:
         ctx.count("runs_with_timer")
@@ -259,7 +262,7 @@ def run_case(case, ctx):
     if stop_idx is not None:
         n0 = len(log)
         ctx.lib("fit(second)", st.fit, data, epochs=c["epochs"] + 2, pos_batch_size=c["pos"], lr=0.1, starting_epoch=c["start"],
-                callbacks=cbs, time=c["time"], tags=tags, **kw)
+                callbacks=trainrec.as_container(cbs, cform), time=c["time"], tags=tags, **kw)
         ctx.count("second_fit_checks")
         if len(log) != n0 or monitors.params_digest(st) != end_pd:
             ctx.violation("stopped-run-not-inert", f"a fit started with the stop flag set emitted {len(log) - n0} events / changed parameters: "
